@@ -79,6 +79,9 @@ class NgramTokenizer(Tokenizer):
 
         if mode == "query":
             size = min(self.max, inlen)
+            if size < self.min:
+                # Too short to have been indexed at all
+                return
             for start in xrange(0, inlen - size + 1):
                 end = start + size
                 if end > inlen:
